@@ -71,6 +71,8 @@ pub struct BtorGenCfg {
     pub names: bool,
     pub shuffle: bool,
     pub max_width: u32,
+    /// init expressions only refer to constants, inputs and earlier states (what the writer can emit before the state)
+    pub safe_init: bool,
 }
 
 impl Default for BtorGenCfg {
@@ -84,6 +86,7 @@ impl Default for BtorGenCfg {
             names: true,
             shuffle: true,
             max_width: 520,
+            safe_init: false,
         }
     }
 }
@@ -112,6 +115,8 @@ pub struct BtorGen<'a> {
     next_id: u32,
     name_ctr: u32,
     pub ops_used: Vec<String>,
+    /// constants, inputs and state symbols in creation order (for safe_init)
+    pub leaves: Vec<(u32, Ty)>,
 }
 
 fn rand_bits(rng: &mut Rng, w: u32) -> String {
@@ -170,7 +175,7 @@ fn bits_to_hex(bits: &str) -> String {
 
 impl<'a> BtorGen<'a> {
     pub fn new(rng: &'a mut Rng, cfg: BtorGenCfg) -> Self {
-        BtorGen { rng, cfg, lines: vec![], sorts: vec![], nodes: vec![], states: vec![], used_ids: Default::default(), next_id: 1, name_ctr: 0, ops_used: vec![] }
+        BtorGen { rng, cfg, lines: vec![], sorts: vec![], nodes: vec![], states: vec![], used_ids: Default::default(), next_id: 1, name_ctr: 0, ops_used: vec![], leaves: vec![] }
     }
     fn fresh_id(&mut self) -> u32 {
         if self.cfg.random_ids && self.rng.chance(1, 3) {
@@ -250,6 +255,11 @@ impl<'a> BtorGen<'a> {
         id
     }
     pub fn gen_const(&mut self, w: u32) -> u32 {
+        let id = self.gen_const_inner(w);
+        self.leaves.push((id, Ty::Bv(w)));
+        id
+    }
+    fn gen_const_inner(&mut self, w: u32) -> u32 {
         let bits = rand_bits(self.rng, w);
         match self.rng.below(8) {
             0 => self.emit_node("zero", Ty::Bv(w), String::new()),
@@ -295,6 +305,7 @@ impl<'a> BtorGen<'a> {
         let name = self.opt_name();
         self.lines.push(format!("{id} {kind} {s}{name}"));
         self.nodes.push((id, t));
+        self.leaves.push((id, t));
         if kind == "state" {
             self.states.push((id, t));
         }
@@ -468,9 +479,20 @@ impl<'a> BtorGen<'a> {
         for (sid, t) in states {
             if self.rng.chance(2, 3) {
                 // init: literal-like or any node of the state's type; arrays may be initialised from a bit-vector
-                let cand = match t {
-                    Ty::Arr(_, dw) if self.rng.chance(2, 3) => self.pick_node(|x| x == Ty::Bv(dw)),
-                    _ => self.pick_node(|x| x == t),
+                let cand = if self.cfg.safe_init {
+                    // only leaves created before this state's declaration line
+                    let pos = self.leaves.iter().position(|(i, _)| *i == sid).unwrap_or(0);
+                    let want = match t {
+                        Ty::Arr(_, dw) if self.rng.chance(2, 3) => Ty::Bv(dw),
+                        _ => t,
+                    };
+                    let c: Vec<(u32, Ty)> = self.leaves[..pos].iter().copied().filter(|(_, x)| *x == want).collect();
+                    if c.is_empty() { None } else { Some(*self.rng.pick(&c)) }
+                } else {
+                    match t {
+                        Ty::Arr(_, dw) if self.rng.chance(2, 3) => self.pick_node(|x| x == Ty::Bv(dw)),
+                        _ => self.pick_node(|x| x == t),
+                    }
                 };
                 if let Some(e) = cand {
                     let s = self.sort_id(t);
